@@ -224,3 +224,26 @@ pub fn run(o: &Opts) -> i32 {
     println!("OBSERVED lines={n} wall_ms={} out={out}", t0.elapsed().as_millis());
     0
 }
+
+/// `kv-txn order`: which commit does the tree under test have? One small write transaction is committed on
+/// an in-memory server with a recording pause handler; the labels are printed in the order they were passed.
+pub fn order(_o: &Opts) -> i32 {
+    let rt = runtime();
+    let log: Arc<Mutex<Vec<&'static str>>> = Arc::new(Mutex::new(Vec::new()));
+    let l2 = log.clone();
+    rt.block_on(async {
+        let qs = new_qs(t(0)).await;
+        let (idms, _d, _a) = new_idms(qs, t(0)).await;
+        let mut w = idms.proxy_write(t(1)).await.expect("write");
+        apply_op(&mut w.qs_write, "create").expect("op");
+        kvt::set_pause_handler(Some(Arc::new(move |label: &'static str| {
+            l2.lock().expect("log").push(label);
+        })));
+        let r = w.commit();
+        kvt::set_pause_handler(None);
+        r.expect("commit");
+    });
+    let labels = log.lock().expect("log").clone();
+    println!("ORDER {}", serde_json::to_string(&labels).expect("json"));
+    0
+}
